@@ -93,13 +93,47 @@ package ociclient
 // A digest handed to newBlobReader names a registered algorithm (go-digest's
 // Algorithm().Hash() panics otherwise).
 //@ func newBlobReader
+//@   log
 //@   requires r != nil && desc.Digest != "" && ociref.IsValidDigest(string(desc.Digest))
-//@   ensures result != nil
+//@   ensures result != nil && result.verify && result.desc == desc && result.n == 0 && result.r == r &&
+//@     result.digester != nil && hashed(result.digester) == ""
 //@ func newBlobReaderUnverified
+//@   log
 //@   requires r != nil && desc.Digest != "" && ociref.IsValidDigest(string(desc.Digest))
-//@   ensures result != nil
+//@   ensures result != nil && !result.verify
 
+// C01: the verifying reader. hashed(h) is the ghost string of everything
+// written to the hash h; digestOf(alg, bytes) is the digest function that
+// go-digest's FromBytes and NewDigest both compute. Every byte relayed to the
+// caller has gone through the hash and been counted; a clean end of stream
+// (io.EOF) is reported by a verifying reader only when the count equals the
+// descriptor's size and the digest of everything relayed equals the
+// descriptor's digest; an over-long body fails as soon as it is noticed.
 //@ invariant (*blobReader) self != nil && self.r != nil && self.digester != nil
+//@ invariant (*blobReader) self.n == len(hashed(self.digester))
+
+// What goes into the hash is exactly what the source put into the caller's
+// buffer on this call.
+//@ sink (*blobReader).digester Write(p) requires string(p) == string(buf[:n])
+//@ func (*blobReader).Read
+//@   private r
+//@   ensures[every-relayed-byte-is-hashed-and-counted] result.0 == n && r.n == old(r.n) + result.0 &&
+//@     len(hashed(r.digester)) == old(len(hashed(r.digester))) + result.0 && hasPrefix(hashed(r.digester), old(hashed(r.digester)))
+//@   ensures[clean-end-only-after-verification] result.1 == io.EOF && r.verify ==>
+//@     r.n == r.desc.Size && digestOf(r.desc.Digest.Algorithm(), hashed(r.digester)) == r.desc.Digest
+//@   ensures[too-long-fails-at-once] result.1 == nil ==> r.n <= r.desc.Size
+//@ func (*blobReader).Descriptor
+//@   modifies nothing
+//@   ensures result == r.desc
+
+// read returns a verifying reader: the digest it checks against comes from
+// the response, from the request, from the body itself (small manifests) or
+// from a HEAD request, and in every case the bytes relayed are checked
+// against it.
+//@ func (*client).read
+//@   ensures[returns-a-verifying-reader] result.1 == nil ==>
+//@     (calls == [c.doRequest(_, _, _), newBlobReader(_, _)] && result.0 == calls[1].result) ||
+//@     (calls == [c.doRequest(_, _, _), c.doRequest(_, _, _), newBlobReader(_, _)] && result.0 == calls[2].result)
 
 // The pager: each trip round the loop consumes one server answer, so it
 // terminates when the server's answers are finite.
